@@ -185,7 +185,18 @@ def run(run):
             extra = [n for n in names if n not in known]
             if extra:
                 run.note("MODULES_LKM names %s which are not registered modules (no effect on selection)" % extra)
-            run.check("R2", "lkm-subset-nonempty", any(n in known for n in names), "MODULES_LKM selects no registered module", F.loc(lkm[0]["body"]))
+            # `MODULES_LKM.contains(&module.name)`: list membership for an array / slice, SUBSTRING search for a string
+            lty = F.tyi(lkm[0]["ret"]) if isinstance(lkm[0].get("ret"), int) else (F.ty(lkm[0]["body"]) or "")
+            is_string = lty.replace("'static ", "").replace("&", "").strip() in ("str", "std::string::String") or (len(names) == 1 and isinstance(names[0], str) and "," in names[0])
+            if is_string and names and isinstance(names[0], str):
+                text = names[0]
+                intended = {x.strip() for x in text.split(",") if x.strip()}
+                selected = {n for n in known if n in text}
+                wrong = sorted(selected - intended)
+                run.check("R2", "lkm-membership-is-exact", not wrong, "MODULES_LKM is a string, so `MODULES_LKM.contains(&module.name)` is a substring search: it also selects %s (a prefix/substring of a listed name), which is not in the kernel-module subset %s" % (wrong, sorted(intended)), F.loc(lkm[0]["body"]))
+            else:
+                run.holds("R2", "lkm-membership-is-exact", "array membership", F.loc(lkm[0]["body"]))
+                run.check("R2", "lkm-subset-nonempty", any(n in known for n in names), "MODULES_LKM selects no registered module", F.loc(lkm[0]["body"]))
         # the run loop
         loops = [(i, st) for i, st in enumerate(stmts) if st[0] == "for" and any(isinstance(x, tuple) and x and x[0] == "callind" for x in S.subterms(st))]
         if len(loops) != 1:
